@@ -242,6 +242,18 @@ def run(tier, rep):
         if not (np.shape(gs) == np.shape(got[:-1]) and np.array_equal(gs, got[:-1]) and np.shape(es) == np.shape(gerr[1:]) and np.array_equal(es, gerr[1:])):
             rep.violation('symmetric:short', dict(shape=shape, got=[list(np.shape(gs)), list(np.shape(es))]),
                           'symmetric=True on inputs of shape %s returns shapes %s / %s: not the plain result with one element trimmed from each output' % (shape, np.shape(gs), np.shape(es)))
+    # "arrays of any shape": zero-length dimensions give empty outputs (raise nothing)
+    for shape in [(0,), (0, 3), (2, 0)]:
+        z = np.zeros(shape)
+        try:
+            g0, e0 = dea3(z, z.copy(), z.copy())
+            gs0, es0 = dea3(z, z.copy(), z.copy(), symmetric=True)
+        except Exception as ex:
+            rep.violation('raises-array', dict(shape=list(shape)), 'dea3 raised %r on arrays of shape %s' % (ex, shape))
+            continue
+        narr += 1
+        if np.shape(g0) != shape or np.shape(e0) != shape or np.shape(gs0) != np.shape(g0[:-1]) or np.shape(es0) != np.shape(e0[1:]):
+            rep.violation('shape', dict(shape=list(shape), got=[list(np.shape(g0)), list(np.shape(gs0))]), 'dea3 on arrays of shape %s returns shapes %s / symmetric %s' % (shape, np.shape(g0), np.shape(gs0)))
     # work arrays that are refilled in place between calls (the function has no memory: what counts is what the arrays hold NOW)
     w0, w1, w2 = np.zeros(6), np.zeros(6), np.zeros(6)
     for rnd_round in range(4):
